@@ -13,12 +13,13 @@ PID = "C13"
 TECHNIQUE = "Lean 4 theorems on the Markdown decision logic (block grouping, placeholder substitution) + exact correspondence of render() and grouping + CommonMark differential oracle"
 LEVEL_TEXT = ("Lean model of the logic inside markdown.py: grouping of code blocks into independent recipes, line padding, and MarkdownRecipe.render as chained "
               "placeholder replacement; theorems: exactly the indented and recipe/new-recipe fenced blocks are grouped in order with a new group at each "
-              "new-recipe, and the substitution algebra; render(k) is compared byte for byte with the model on generated documents and scales; grouping "
+              "new-recipe, and the substitution algebra; compile_pad: compiling the line-padded sources the front end builds equals compiling the block texts "
+              "directly, up to the offsets inside the two positioned errors (for every padding and every text); render(k) is compared byte for byte with the model on generated documents and scales; grouping "
               "with the observed code blocks.")
 LEVEL_NOTE = ("Partial: marko's CommonMark parsing/rendering is outside the model; 'everything else renders as plain CommonMark', absence of placeholder "
               "residue and independence of the random generator are checked by the oracle against marko.Markdown() on generated documents (search). "
               "Placeholder collisions with document text have probability about 26^-32 per position (stated, not proved).")
-LEAN_MODULES = ["RecipeGrid.Props.C13"]
+LEAN_MODULES = ["RecipeGrid.Props.C13", "RecipeGrid.Props.C13b"]
 SOURCES = ["recipe_grid/markdown.py"]
 RULE = ("generated documents: optional first heading (ATX/setext, serving phrases), prose with and without brace expressions, lists, quotes, raw HTML, code "
         "spans, other fenced code, 1-2 independent recipes of 1-3 blocks each as indented / ```recipe / ~~~new-recipe blocks at top level, in list items "
